@@ -2161,7 +2161,11 @@ func (cs Conditions) inlineTagFilter(tags map[string]TagDetails) ConditionsSet {
 		}
 		origLen := len(csNew)
 		for range tagConditionsSet {
-			csNew = append(csNew, csNew[:origLen]...)
+			// every alternative gets its own copy of the conditions collected so far:
+			// the appends below must not write into an array that two of them share
+			for _, c := range csNew[:origLen] {
+				csNew = append(csNew, append(Conditions(nil), c...))
+			}
 		}
 		a := c.Accept & certain
 		for i := range csNew {
